@@ -180,17 +180,23 @@ def clone(sim, mem=None):
 
 
 # ------------------------------------------------------------------ layouts
-def ctl_tlv(kind, start, size):
+def ctl_tlv(kind, start, size, bits=None):
     """lock (1) / memory (2) control TLV reserving `size` bytes from `start`;
-    None if the position cannot be expressed"""
+    None if the position cannot be expressed.  A lock control TLV counts lock
+    BITS: `bits` (any value with ceil(bits/8) == size) defaults to size*8."""
     for bpp in range(0, 16):
         pa, bo = start >> bpp, start & ((1 << bpp) - 1)
         if pa <= 15 and bo <= 15:
-            n = size * 8 if kind == 1 else size
-            if not 1 <= n <= 256:
+            n = (size * 8 if bits is None else bits) if kind == 1 else size
+            if not 1 <= n <= 256 or (kind == 1 and (n + 7) // 8 != size):
                 return None
             return bytes([kind, 3, pa << 4 | bo, n & 255, bpp])
     return None
+
+
+def lock_bits(rng, size):
+    """a lock bit count that needs `size` lock bytes; mostly NOT a multiple of 8"""
+    return size * 8 - (rng.randrange(1, 8) if rng.random() < 0.7 else 0)
 
 
 def put_ndef(mem, off, skip, data, end):
@@ -274,7 +280,7 @@ def gen_layout(rng, kind, big=False):
                 start = end + rng.randrange(0, 40)
             else:
                 start = rng.randrange(0, start0)
-            t = ctl_tlv(k, start, size)
+            t = ctl_tlv(k, start, size, lock_bits(rng, size) if k == 1 else None)
             if t is not None:
                 places.append((k, start, size, t))
                 break
@@ -299,6 +305,62 @@ def gen_layout(rng, kind, big=False):
     if kind != "t2":
         d["hr"] = hr
     return d
+
+
+def gen_boundary_layout(rng, kind, target_free):
+    """well-formed layout with exactly `target_free` non-reserved bytes from the NDEF TLV
+    to the end of the data area (capacity / length-format thresholds); kind 't2' | 't1d'"""
+    for attempt in range(200):
+        nctl = rng.choice([0, 1, 1, 2])
+        if kind == "t2":
+            units = (target_free + 5 * nctl + 40) // 8 + rng.randrange(0, 3)
+            if units > 255:
+                continue
+            end = 16 + units * 8
+            phys = end + rng.choice([0, 4, 8, 16])
+            mem = bytearray(rng.randrange(256) for _ in range(phys))
+            mem[12:16] = bytes([0xE1, 0x10, units, 0x00])
+            o, skip = 16, set()
+        else:
+            blocks = max(16, (target_free + 5 * nctl + 64) // 8 + rng.randrange(0, 3))
+            if blocks > 256:
+                continue
+            end = blocks * 8
+            phys = max(128, end + (-end) % 128)
+            mem = bytearray(rng.randrange(256) for _ in range(phys))
+            mem[0:8] = b"\x01\x02\x03\x04\x05\x06\x07\x00"
+            mem[8:12] = bytes([0xE1, 0x10, blocks - 1, 0x00])
+            o, skip = 12, set(range(104, 128))
+        start0 = o
+        ok = True
+        for _ in range(nctl):
+            k = rng.choice([1, 1, 2])
+            size = rng.randrange(1, 9)
+            where = rng.choice(["inside", "inside", "after", "beyond"])
+            start = (rng.randrange(start0 + 60, end - 8) if where == "inside" and end - 8 > start0 + 60 else
+                     end - rng.randrange(0, 6) if where == "after" else end + rng.randrange(0, 30))
+            t = ctl_tlv(k, start, size, lock_bits(rng, size) if k == 1 else None)
+            if t is None:
+                ok = False
+                break
+            mem[o:o + 5] = t
+            o += 5
+            skip |= set(range(start, start + size))
+        if not ok:
+            continue
+        # NULL TLV padding chosen so that the free byte count hits the target
+        for nulls in range(0, 64):
+            oo = o + nulls
+            if any(a in skip for a in range(start0, oo + 4)) or oo + 4 > end:
+                break
+            if len([a for a in range(oo, end) if a not in skip]) == target_free:
+                for a in range(o, oo):
+                    mem[a] = 0
+                d = dict(kind=kind, mem=mem, off=oo, skip=skip, end=end, ok=True, hdr3=True, nctl=nctl)
+                if kind != "t2":
+                    d["hr"] = b"\x12\x4C"
+                return d
+    raise RuntimeError("boundary layout generator exhausted for %s/%d" % (kind, target_free))
 
 
 def f1_present():
